@@ -202,6 +202,8 @@ def case_st(draw):
     pl["sleeper_flavour"] = draw(st.sampled_from(["async", "async", "awaitable", "awaitable_obj", "gen_coroutine", "sync"]))
     pl["before_flavour"] = draw(st.sampled_from(["async", "async", "awaitable", "awaitable_obj", "gen_coroutine", "sync"]))
     case["placement"] = pl
+    if case["cfg"].get("budget") is not None and gen.chance(draw, 0.3, "c12-late-budget"):
+        case["cfg"]["budget"]["late"] = True  # handed over by attribute assignment where the entry point has an object
     grp = draw(st.sampled_from(["plain"] * 6 + ["breaker"] * 3 + ["noretry"] + ["midflight"]))
     if grp == "midflight":
         # public attributes are rebound while the call is backing off: every entry point must react alike
